@@ -3,10 +3,10 @@
 META = {
     "property_id": "C17",
     "engine": "lean-conn",
-    "technique": "Lean 4: the connection is a byte list followed by EOF, a response frame announces sz bytes; byte conservation of every parser program (mutual induction over all programs, including whatever the go/ast translator regenerates) gives the generic lemma 'a computation that ends with the frame counter at 0 consumed sz bytes, so it cannot on a stream holding fewer'; instantiated for every (*Conn).do operation, for ReadBatchWith/Batch over any byte-conserving message-set reader, and for protocol.ReadResponse under its discardAll contract; differential correspondence: the real Conn over net.Pipe with the scripted broker delivering exactly k bytes, and protocol.ReadResponse on every registered response type x version x cut position through three reader kinds, against the compiled Lean oracle",
+    "technique": "Lean 4: the connection is a byte list followed by EOF, a response frame announces sz bytes; byte conservation of every parser program (mutual induction over all programs, including whatever the go/ast translator regenerates) gives the generic lemma 'a computation that ends with the frame counter at 0 consumed sz bytes, so it cannot on a stream holding fewer'; instantiated for every (*Conn).do operation, for ReadBatchWith/Batch over any byte-conserving message-set reader, and for protocol.ReadResponse under its discardAll contract; Transport connection pool as an LTS with trace acceptance; differential correspondence: Client/Writer over a real kafka.Transport and a Reader over a real Dialer against a stateful fake broker with per-connection journals (response cut at byte k, follow-up calls must succeed on a new connection), the real Conn over net.Pipe with the scripted broker delivering exactly k bytes, and protocol.ReadResponse on every registered response type x version x cut position through three reader kinds, against the compiled Lean oracle",
     "level_claimed": {
         "category": "proof",
-        "text": "Kernel-checked for every cut position and EVERY byte content: a (*Conn).do operation (all except list-offsets/ApiVersions, see C11) whose response stream ends inside the size prefix, the correlation id or the body returns a non-kafka error and the Conn is closed (cut_is_error, cut_in_header_is_error), after which every operation fails (C11.closed_stays_failed, dead_stream_fails); fetch never reports a complete batch on a cut stream and a kafka error can only come with a used-up stream (fetch_cut_is_error, for every byte-conserving message-set reader); the reflective decoder returns an error on every strict prefix under the contract 'ReadResponse returns ok only after discardAll brought remain to 0' (readResponse_cut_is_error), the contract being tied by correspondence on all 39 registered APIs x all versions x cut positions (thorough: every k). Not proved (partial): 'blocks beyond its deadline' (runtime, observed under a watchdog), absence of panics inside message_reader.go and that delivered records are a prefix of those sent (observed on the real code for every cut of v1/v2, multi-batch and compressed sets), Reader/Writer resumption on a new connection (resume_after_cut belongs with the C01/C02 machines).",
+        "text": "Kernel-checked for every cut position and EVERY byte content: a (*Conn).do operation (all except list-offsets/ApiVersions, see C11) whose response stream ends inside the size prefix, the correlation id or the body returns a non-kafka error and the Conn is closed (cut_is_error, cut_in_header_is_error), after which every operation fails (C11.closed_stays_failed, dead_stream_fails); fetch never reports a complete batch on a cut stream and a kafka error can only come with a used-up stream (fetch_cut_is_error, for every byte-conserving message-set reader); the reflective decoder returns an error on every strict prefix under the contract 'ReadResponse returns ok only after discardAll brought remain to 0' (readResponse_cut_is_error), the contract being tied by correspondence on all 39 registered APIs x all versions x cut positions (thorough: every k). Transport connections: life cycle of transport.go's connections as an LTS over the existing T.* hook points; for ALL accepted event sequences a connection whose exchange failed is never grabbed, served, released or removed again and the next request runs on another connection (failed_conn_never_reused, resume_after_cut, grab_takes_idle), tied by trace acceptance of every end-to-end case. Inside the message set: for every v2 layout, cut position and fetch offset the C02 decoder model neither panics nor desynchronises and hands out exactly the completely received records (fetch_cut_no_panic_v2, instance of C02.single_fetch_partial). Not proved (partial): 'blocks beyond its deadline' (runtime, observed under watchdogs), v0/v1 message sets inside the decoder (observed on every cut), that Reader and Writer resume without loss/duplication/reordering (observed end to end for every cut of the 1st/2nd/3rd fetch, list-offsets and metadata exchange of a Reader and of the produce / metadata exchange of a Writer; the ∀-statement composes with C01/C02's machines).",
         "design_ref": "DESIGN.md §7 C17",
     },
     "level_note": "Trusted: as C11 (kernel, translator, hand transcription of the conn.go closures and of do/waitResponse/Batch.close, bufio/net.Conn model where a lost connection = EOF after k bytes). protocol/decode.go is NOT modelled structurally here (C04/C20 do that): only its discardAll contract is used and sampled. message_reader.go is abstracted to 'any byte-conserving reader'. Frames for the Transport path are produced by protocol.WriteResponse from reflectively filled messages (the encoder is C04's subject); compressed payload decoders are the real libraries. Deadlines/blocking are observed, not proved.",
@@ -22,6 +22,9 @@ def run(ctx):
         "fetch: a response at the high watermark carries an empty set; message-set reader conserves bytes and does not panic (observed, not proved)",
         "protocol.ReadResponse: ok only after discardAll left remain = 0 (contract, sampled on every registered API/version)",
         "'blocks beyond its deadline' is observed with a watchdog (5 s deadline, 30 s watchdog), not proved",
+        "Transport LTS: events are the existing verifEvent(\"T.*\") hook points of transport.go; Grab/Release/Remove are recorded under connGroup.mutex, Recv/Done/Exit on the connection's goroutine",
+        "Transport keeps a failed INITIAL metadata state until its next refresh (MetadataTTL, 40 ms in the driver): follow-up calls are retried for up to 3 s",
+        "fetch_cut_no_panic_v2: a connection cut presents message_reader.go with the token stream `truncate` of Spec/Layout.lean (C02's bytes<->tokens tie); v2 layouts only",
     ]
     broken = []
     ok, log = ctx.extract("connlegacy", ["lean/KafkaVerif/Gen/ConnLegacy.lean"])
@@ -49,6 +52,8 @@ def run(ctx):
         if len(f) > 2 and f[0] == "c17":
             k = ":".join(f[2].split(":")[:2])
             by_op[k] = by_op.get(k, 0) + 1
+        elif f[0] in ("tp", "tt"):
+            by_op[f[0] + " " + f[1]] = by_op.get(f[0] + " " + f[1], 0) + 1
         elif f[0] == "rr":
             by_op["ReadResponse"] = by_op.get("ReadResponse", 0) + 1
     ctx.coverage["cases_by_op_version"] = by_op
